@@ -34,6 +34,8 @@ Paths == {"dense_list", "ndarray", "csr", "csc", "coo", "lil", "dok", "edge_list
           \* of networks that did not come from an adjacency matrix
           "igraph_shuffled", "igraph_shuffled.copy", "edge_list_shuffled", "copy.copy", "graphml.copy",
           "pickle.copy", "edge_list_n.copy",
+          \* sparse input with explicitly stored zero entries; a network whose copy was edited afterwards
+          "csr_zeros", "csc_zeros", "coo_zeros", "copy_then_edit",
           \* histories: save, change the node weights, save again, load the second file
           "resave_unit.graphml", "resave_unit.pickle", "resave_w.graphml", "resave_w.pickle",
           \* the spatial subclasses (network file + grid file)
